@@ -16,13 +16,13 @@ HARNESS_BIN = 'c18'
 RUN_MODULE = 'Run.C18'
 REPO_BINS = ['sccache-dist']
 COQ_EXTRA = []
-THEOREMS_PLANNED = ['C18_consts_ok', 'C18_attribution', 'C18_capacity', 'C18_transitions', 'C18_update_result',
-            'C18_in_progress', 'C18_never_panics', 'C18_unfixed_refuted']
+THEOREMS = ['C18_consts_ok', 'C18_attribution', 'C18_capacity', 'C18_transitions', 'C18_update_result',
+            'C18_in_progress', 'C18_never_panics', 'C18_no_leak', 'C18_unfixed_refuted', 'C18_unfixed_leak_refuted']
 ASSUMPTIONS = [
     'time-outs excluded, as the property says: prune_servers (no heartbeat for 90 s), stale unclaimed jobs (60 s / 300 s) and forgetting a server error (300 s) never fire; the hook refuses any case that took longer than 20 s',
     'each handler piece between two lock acquisitions is atomic (it runs under the mutexes the code takes for it); the model\'s messages are exactly those pieces, so "all message sequences" = all interleavings of request threads',
     'the iteration order of the servers HashMap is arbitrary: a parameter of alloc_begin in the model (theorems quantify over it), forced in the hook by rebuilding the map until it iterates as scripted',
-    'JobAuthorizer::generate_token succeeds; load_weight\'s f64 quotient orders like the exact rational (true for core counts below 2^25)',
+    'load_weight\'s f64 quotient orders like the exact rational (true for core counts below 2^25); whether generate_token fails is a fixed attribute of a registration (scripted through the JobAuthorizer the hook registers)',
 ]
 TRUSTED = [
     'hook: src/bin/sccache-dist/verif_sched.rs (cfg sccache_verif) — scripted SchedulerOutgoing on synchronised threads, read-only dump of the private maps, re-hashing of the servers map to force its iteration order',
@@ -47,6 +47,8 @@ def alphabet(servers, nonces, jobs, cpus_of, states_ok, prefs, zero_cpu=True):
             a.append([b'hb', s, n, cpus_of[s]])
     if zero_cpu:
         a.append([b'hb', servers[0], nonces[0], 0])
+        # a registration whose JobAuthorizer cannot create tokens
+        a.append([b'hb', servers[-1], nonces[-1], cpus_of[servers[-1]], 1])
     for p in prefs:
         a.append([b'begin', list(p)])
     for j in jobs:
@@ -152,7 +154,8 @@ def gen_random(rng, n, maxlen, style):
             elif kind == 'hb':
                 ops.append([b'hb', s, 1, cpus[s]])
             elif kind == 'hb_fresh':
-                ops.append([b'hb', s, rng.range(1, 4), rng.choice([cpus[s], cpus[s], rng.range(1, 9)])])
+                ops.append([b'hb', s, rng.range(1, 4), rng.choice([cpus[s], cpus[s], rng.range(1, 9)])]
+                           + ([1] if rng.chance(1, 8) else []))
             elif kind == 'hb_zero':
                 ops.append([b'hb', s, 1, 0])
             else:
@@ -202,7 +205,7 @@ def gen_guided(rng, n, maxlen):
             elif k == 'fresh':
                 s = rng.choice(servers)
                 nonce[s] += 1
-                ops.append([b'hb', s, nonce[s], cpus[s]])
+                ops.append([b'hb', s, nonce[s], cpus[s]] + ([1] if rng.chance(1, 6) else []))
             elif k == 'same':
                 s = rng.choice(servers)
                 ops.append([b'hb', s, nonce[s], cpus[s]])
@@ -229,7 +232,7 @@ def monitor(case, out):
             return vs + ['message %d: malformed observation' % i]
         res, pj, ps, count, jobs_l, srv_l, fl_l = obs
         jobs = {e[0]: (e[1], e[2]) for e in jobs_l}
-        srv = {e[0]: dict(nonce=e[1], cpus=e[2], assigned=e[4], unclaimed=e[5]) for e in srv_l}
+        srv = {e[0]: dict(nonce=e[1], cpus=e[2], tokfail=e[3], assigned=e[5], unclaimed=e[6]) for e in srv_l}
         # -- never panics / keeps serving
         if res and res[0] == b'panic':
             vs.append('message %d %s: the scheduler panicked' % (i, sx.dumps(m)))
@@ -251,6 +254,13 @@ def monitor(case, out):
             if len(d['assigned']) > c or live_here > c or len(set(d['assigned'])) != len(d['assigned']):
                 vs.append('message %d %s: server %d (%d cpus, capacity %d) has %d assigned / %d live jobs'
                           % (i, sx.dumps(m), k, d['cpus'], c, len(d['assigned']), live_here))
+        # -- no leaked reservation: an assigned id is a live job of that server or a call in its window for it
+        fl = {e[0]: e[1] for e in fl_l}
+        for k, d in srv.items():
+            for j in d['assigned']:
+                if not ((j in jobs and jobs[j][0] == k) or fl.get(j) == k):
+                    vs.append('message %d %s: server %d keeps job %d assigned although it is neither live nor being assigned '
+                              '(leaked reservation: the capacity is used up for good)' % (i, sx.dumps(m), k, j))
         # -- transitions
         t = m[0]
         for j in set(prev_jobs) | set(jobs):
@@ -357,22 +367,60 @@ def classify(case, out, v):
 def legs(tier):
     def gen(rng, tier):
         if tier == 'thorough':
-            return (gen_exhaustive(FULL, 4) + gen_exhaustive(CORE, 6) + gen_tour(9, FULL, 400000)
-                    + gen_random(rng, 40000, 40, 'mixed') + gen_random(rng, 20000, 60, 'capacity')
-                    + gen_random(rng, 20000, 40, 'window') + gen_random(rng, 10000, 40, 'wide') + gen_guided(rng, 30000, 40))
-        return (gen_exhaustive(FULL, 3) + gen_exhaustive(CORE, 4) + gen_tour(6, FULL, 60000)
-                + gen_random(rng, 5000, 30, 'mixed') + gen_random(rng, 2500, 50, 'capacity')
-                + gen_random(rng, 2500, 30, 'window') + gen_random(rng, 1000, 30, 'wide') + gen_guided(rng, 4000, 30))
+            return (gen_exhaustive(FULL, 3) + gen_exhaustive(CORE[:-1], 5) + gen_tour(9, FULL, 10 ** 7)
+                    + gen_random(rng, 30000, 40, 'mixed') + gen_random(rng, 15000, 60, 'capacity')
+                    + gen_random(rng, 15000, 40, 'window') + gen_random(rng, 10000, 40, 'wide') + gen_guided(rng, 30000, 40))
+        return (gen_exhaustive(FULL, 3) + gen_exhaustive(CORE, 4) + gen_tour(7, FULL, 10 ** 7)
+                + gen_random(rng, 8000, 30, 'mixed') + gen_random(rng, 4000, 50, 'capacity')
+                + gen_random(rng, 4000, 30, 'window') + gen_random(rng, 2000, 30, 'wide') + gen_guided(rng, 6000, 30))
     return [Leg('sched', gen, monitor=monitor, nontrivial=nontrivial, shrink=shrink, neighbours=neighbours,
                 classify=classify, stats=stats, impl_bin='c18', impl_args=['sched'],
-                rule='EXHAUSTIVE: every sequence over the 30-message alphabet FULL (2 servers x 2 nonces, 2 jobs, '
-                     'begin with both iteration orders, end_ok/end_fail, updates with every state from every server, '
-                     'status, zero-cpu heartbeat) to depth 3 (thorough 4) and over the 14-message alphabet CORE to '
-                     'depth 4 (thorough 6); a transition tour (every message of FULL from every model state reachable '
-                     'within 6 / 9 messages); PRNG sequences up to 60 messages on up to 3 servers (mixed, '
+                rule='EXHAUSTIVE: every sequence of 3 messages over the 31-message alphabet FULL (heartbeats of 2 servers '
+                     'x 2 nonces, a zero-cpu one and one whose authorizer cannot create tokens, begin with both iteration orders, end_ok / end_fail for 2 jobs, '
+                     'updates of 2 jobs from 2 servers with all 4 states, status), every sequence of 4 (thorough: 5) '
+                     'messages over the 14 (13) message alphabet CORE; TRANSITION TOUR: every message of FULL from every '
+                     'model state reachable within 7 (thorough 9) messages, along a shortest path, all intermediate '
+                     'observations compared; PRNG sequences up to 60 messages on up to 3 servers (mixed, '
                      'capacity-saturating, registration-inside-window, many-core) and guided job-life walks.  '
                      'non-trivial = a job was recorded or a message arrived inside an assignment window; '
                      'distinct by full case text')]
+
+
+def extra(rep, known):
+    """When the proof side no longer checks (a constant or table read by the translator changed, the model does not
+    build, a theorem fails) the differential legs cannot run.  The property itself can still be evaluated on the
+    real scheduler: run the implementation alone on the corpus and the generated cases and report the first input
+    on which one of the five predicates fails."""
+    broken = [o for o in rep.obligations if not o[1] and o[0].split(':')[0] in ('coq', 'translate', 'theorem', 'extract', 'pinned-theorems-present')]
+    if not broken or not os.path.exists(pipeline.repo_bin('sccache-dist')):
+        return
+    from ..prng import Rng
+    rng = Rng(rep.seed).fork(ID + ':impl-only')
+    cases = (pipeline.corpus_cases(ID, 'sched') + gen_exhaustive(CORE, 4)
+             + gen_random(rng, 6000, 60, 'capacity') + gen_random(rng, 3000, 40, 'wide') + gen_random(rng, 4000, 30, 'mixed')
+             + gen_random(rng, 3000, 30, 'window') + gen_guided(rng, 4000, 30))
+    outs = pipeline.run_sharded([pipeline.repo_bin('sccache-dist'), '__verif_sched'], [sx.dumps(c) for c in cases])
+    n = 0
+    for c, o in zip(cases, outs):
+        rep.evaluations += 1
+        vs = monitor(c, pipeline.parse_out(o))
+        if vs:
+            n += 1
+            if n <= 3:
+                small = c
+                # greedy shrink on the implementation alone
+                for _ in range(60):
+                    cands = list(shrink(small))
+                    os_ = pipeline.run_sharded([pipeline.repo_bin('sccache-dist'), '__verif_sched'], [sx.dumps(x) for x in cands])
+                    nxt = next((x for x, y in zip(cands, os_) if monitor(x, pipeline.parse_out(y))), None)
+                    if nxt is None:
+                        break
+                    small = nxt
+                o2 = pipeline.run_sharded([pipeline.repo_bin('sccache-dist'), '__verif_sched'], [sx.dumps(small)])
+                rep.violation('property', 'sched', small,
+                              monitor(small, pipeline.parse_out(o2[0]))[0] + ' (found on the implementation alone after: %s)' % broken[0][0])
+    rep.legs['impl-only'] = dict(cases=len(cases), violations=n)
+    pipeline.log('impl-only search after a broken proof obligation: %d cases, %d violate the property' % (len(cases), n))
 
 
 def prebuild(rep):
